@@ -81,9 +81,9 @@ Definition side_pred (mt : mtype) (ns n : string) (i : ixn) : bool :=
 Definition legacy_apply (t : list ixn) (ws : list ixn) : list ixn :=
   fold_left (fun t w => snd (legacy_set t w)) ws t.
 
-(* fresh writes: new non-empty IDs, new (case-folded) name tuples *)
+(* fresh writes: new non-empty IDs (as UUIDs, i.e. up to hex case), new (case-folded) name tuples *)
 Definition fresh_writes (t ws : list ixn) : Prop :=
-  NoDup (map i_id (t ++ ws)) /\ (forall w, In w ws -> i_id w <> "") /\
+  NoDup (map (fun i => lower (i_id i)) (t ++ ws)) /\ (forall w, In w ws -> i_id w <> "") /\
   (forall i j, In i (t ++ map set_prec ws) -> In j (t ++ map set_prec ws) -> key4_eqb i j = true -> i = j).
 
 (* ---------------------------------------------------------------- service-intentions config entries *)
@@ -176,7 +176,7 @@ Definition legacy_okb (t : list ixn) : bool :=
   (forallb (fun i => wfb i && String.eqb (i_peer i) "")%bool t && key4_nodupb t)%bool.
 
 Definition fresh_writesb (t ws : list ixn) : bool :=
-  (nodupb String.eqb (map i_id (t ++ ws)) && forallb (fun w => negb (String.eqb (i_id w) "")) ws
+  (nodupb String.eqb (map (fun i => lower (i_id i)) (t ++ ws)) && forallb (fun w => negb (String.eqb (i_id w) "")) ws
    && key4_nodupb (t ++ map set_prec ws))%bool.
 
 Definition entry_okb (e : entry) : bool :=
